@@ -310,6 +310,58 @@ func c10Check(work string, cs c10Case) (kind, detail, outcome string) {
 	return "", "", outcome
 }
 
+// c10Formats: two files per input format that holds one document per file.
+var c10Formats = []struct {
+	ext  string
+	a, b string
+}{
+	{"toml", "a = 1\nn = \"first\"\n", "a = 2\nm = \"second\"\n"},
+	{"lua", "return {a=1, n=\"first\"}\n", "return {a=2, m=\"second\"}\n"},
+	{"xml", "<r><a>1</a><n>first</n></r>\n", "<r><a>2</a><m>second</m></r>\n"},
+	{"properties", "a = 1\nn = first\n", "a = 2\nm = second\n"},
+	{"csv", "a,n\n1,first\n", "a,m\n2,second\n"},
+	{"tsv", "a\tn\n1\tfirst\n", "a\tm\n2\tsecond\n"},
+	{"json", "{\"a\": 1, \"n\": \"first\"}\n", "{\"a\": 2, \"m\": \"second\"}\n"},
+}
+
+// c10CheckFormat: files of one non-YAML format in the given order (0 = a, 1 = b); the output is the solo outputs in order.
+func c10CheckFormat(work string, ext string, order []int, expr string) (kind, detail string) {
+	dir, err := os.MkdirTemp(work, "f-")
+	if err != nil {
+		return "harness", err.Error()
+	}
+	defer os.RemoveAll(dir)
+	var content [2]string
+	for _, f := range c10Formats {
+		if f.ext == ext {
+			content = [2]string{f.a, f.b}
+		}
+	}
+	var names []string
+	var want []string
+	for i, o := range order {
+		n := fmt.Sprintf("f%d.%s", i, ext)
+		os.WriteFile(filepath.Join(dir, n), []byte(content[o]), 0o644)
+		names = append(names, n)
+		solo, _, sexit, _ := c10RunYq(dir, "-o=yaml", expr, n)
+		if sexit != 0 {
+			return "", "" // the format does not read its own sample in this version: nothing to compare
+		}
+		want = append(want, linesNoSep(solo)...)
+	}
+	out, serr, exit, err := c10RunYq(dir, append([]string{"-o=yaml", expr}, names...)...)
+	if err != nil {
+		return "hang", err.Error()
+	}
+	if exit != 0 {
+		return "unexpected-failure", fmt.Sprintf("every file succeeds on its own, the run exits %d: %s", exit, serr)
+	}
+	if got := linesNoSep(out); strings.Join(got, "\n") != strings.Join(want, "\n") {
+		return "content", fmt.Sprintf("yq -o=yaml %q %v prints\n%s\nthe files on their own give, in order,\n%s", expr, names, out, strings.Join(want, "\n"))
+	}
+	return "", ""
+}
+
 func c10Histories(maxFiles, maxDocs int) [][][]int {
 	var files [][]int
 	var rec func(cur []int)
@@ -357,7 +409,7 @@ func c10Run(c *fw.Ctx) error {
 		maxFiles, maxDocs = 2, 3
 	}
 	hist := c10Histories(maxFiles, maxDocs)
-	c.Res.Bound = fmt.Sprintf("%d histories (<= %d files x 0..%d documents over a %d-document alphabet, incl. empty files) x %d expressions x {default, -N; --header-preprocess=false for 5 of them} on the real binary; the same histories as JSON value streams (-p json -o yaml) x 9 expressions; plus eval vs eval-all on every single-document input", len(hist), maxFiles, maxDocs, len(c10Alphabet), len(c10Exprs))
+	c.Res.Bound = fmt.Sprintf("%d histories (<= %d files x 0..%d documents over a %d-document alphabet, incl. empty files) x %d expressions x {default, -N; --header-preprocess=false for 5 of them} on the real binary; the same histories as JSON value streams (-p json -o yaml) x 9 expressions; 6 file orders x 4 expressions for each of 7 other input formats (toml lua xml properties csv tsv json, one document per file); plus eval vs eval-all on every single-document input", len(hist), maxFiles, maxDocs, len(c10Alphabet), len(c10Exprs))
 	var idx int64
 	for _, jsonIn := range []bool{false, true} {
 		exprs := c10Exprs
@@ -431,6 +483,29 @@ func c10Run(c *fw.Ctx) error {
 			}
 		}
 	}
+	// several files of every other input format (one document per file)
+	for _, f := range c10Formats {
+		for _, order := range [][]int{{0}, {0, 1}, {1, 0}, {0, 0}, {0, 1, 0}, {1, 1, 0}} {
+			for _, e := range []string{".", ".a", "select(.a == 2)", "keys"} {
+				idx++
+				if !c.Mine(idx) || c.Expired() {
+					continue
+				}
+				kind, detail := c10CheckFormat(work, f.ext, order, e)
+				c.Eval(1)
+				c.Validated(1)
+				key := fmt.Sprintf("format|%s|%v|%s", f.ext, order, e)
+				c.Outcome(key + kind)
+				if len(order) >= 2 {
+					c.Nontrivial(key)
+				}
+				if kind != "" {
+					c.Count("mismatch_"+kind, 1)
+					c.Violation(kind+"/input-format="+f.ext+"/"+e, int64(len(order))*1e6, c10Case{Files: [][]int{order}, Expr: e, Mode: "format:" + f.ext}, detail)
+				}
+			}
+		}
+	}
 	// eval = eval-all on single-document inputs (expressions whose traversals are total on that document)
 	for a := range c10Alphabet {
 		for _, e := range c10Exprs {
@@ -470,6 +545,15 @@ func c10Replay(raw json.RawMessage) (bool, string, error) {
 	var cs c10Case
 	if err := json.Unmarshal(raw, &cs); err != nil {
 		return false, "", err
+	}
+	if strings.HasPrefix(cs.Mode, "format:") {
+		work, err := os.MkdirTemp("", "mc-c10-")
+		if err != nil {
+			return false, "", err
+		}
+		defer os.RemoveAll(work)
+		kind, detail := c10CheckFormat(work, strings.TrimPrefix(cs.Mode, "format:"), cs.Files[0], cs.Expr)
+		return kind != "", kind + ": " + detail, nil
 	}
 	work, err := os.MkdirTemp("", "mc-c10-")
 	if err != nil {
